@@ -123,7 +123,7 @@ def enumerate_cases(tier):
             yield {"cls": "RTFFigure", "field": field, "kind": "figure", "form": "scalar", "shape": [1, 1],
                    "pos": [0, 0], "bad": bad, "fill": [legal[0]]}
     for rule in DOC_RULES:
-        for variant in range(8 if rule in ("multi_section_column_missing", "margin_length", "figure_missing_file", "df_and_figure") else 4):
+        for variant in range(24 if rule == "multi_section_column_missing" else 8 if rule in ("margin_length", "figure_missing_file", "df_and_figure") else 4):
             yield {"cls": "RTFDocument", "field": rule, "kind": "doc", "form": "rule", "shape": [1, 1],
                    "pos": [variant, 0], "bad": None, "fill": []}
 
@@ -171,7 +171,7 @@ def _random_case(draw):
         return {"cls": "RTFFigure", "field": field, "kind": "figure", "form": "scalar", "shape": [1, 1], "pos": [0, 0],
                 "bad": draw(st.sampled_from(illegal)), "fill": [draw(st.sampled_from(legal))]}
     return {"cls": "RTFDocument", "field": draw(st.sampled_from(DOC_RULES)), "kind": "doc", "form": "rule",
-            "shape": [1, 1], "pos": [draw(st.integers(0, 7)), 0], "bad": None, "fill": []}
+            "shape": [1, 1], "pos": [draw(st.integers(0, 23)), 0], "bad": None, "fill": []}
 
 
 def strategy(tier):
@@ -225,6 +225,11 @@ def doc_rule(rule, variant, bad: bool):
         b1 = rtf.RTFBody(**{key: ["a"]})
         b2 = b1 if shared else rtf.RTFBody(**{key: ["a"]})
         frames = [df, other] if bad else [df, df.clone()]
+        where = (variant // 8) % 3          # 0: the section lacking the column is the last one, 1: the first, 2: the middle one
+        if bad and where:
+            frames = [other, df] if where == 1 and variant % 2 == 0 else [other, df, df.clone()] if where == 1 else [df, other, df.clone()]
+            bodies = [b1, b2] + ([b1 if shared else rtf.RTFBody(**{key: ["a"]})] if len(frames) == 3 else [])
+            return lambda: rtf.RTFDocument(df=frames, rtf_body=bodies)
         if variant % 2 and bad:
             frames = [df, df.clone(), other]
             return lambda: rtf.RTFDocument(df=frames, rtf_body=[b1, b2, b1 if shared else rtf.RTFBody(**{key: ["a"]})])
